@@ -456,6 +456,28 @@ separate tokens; never H/V, never swapped radii (path.go:2158-2189) -/
 def toStr {α : Type} (cur : α × α) (p : List (Cmd α)) : List (Tok α) :=
   toSVG (fun _ _ => false) (fun _ => false) (fun r => r) cur p
 
+/-- subpath structure of a data array: the MoveTo points in order, and the number of Closes -/
+def cmdStarts {α : Type} : List (Cmd α) → List (α × α)
+  | [] => []
+  | .move x y :: r => (x, y) :: cmdStarts r
+  | _ :: r => cmdStarts r
+
+def cmdCloses {α : Type} : List (Cmd α) → Nat
+  | [] => 0
+  | .close _ _ :: r => cmdCloses r + 1
+  | _ :: r => cmdCloses r
+
+/-- … and of a decoded segment list -/
+def segStarts {α : Type} : List (Seg α) → List (α × α)
+  | [] => []
+  | .move x y :: r => (x, y) :: segStarts r
+  | _ :: r => segStarts r
+
+def segCloses {α : Type} : List (Seg α) → Nat
+  | [] => 0
+  | .close _ _ _ _ :: r => segCloses r + 1
+  | _ :: r => segCloses r
+
 /-- what ToSVG keeps of a command: zero-length lines vanish, arcs with `90 <= rot` are printed with
 swapped radii and `rot - 90` (the same ellipse, `C11.ellipse_swap`) -/
 def svgCanon {α : Type} (eq : α → α → Bool) (ge90 : α → Bool) (sub90 : α → α) (cur : α × α) : Cmd α → Option (Cmd α)
